@@ -168,6 +168,7 @@ class C17(Prop):
             'route': st.sampled_from(['code', 'proto']),
             'case': st.sampled_from(['lower', 'upper', 'title']),
             'fire_count': st.sampled_from(['1', '2', '-1']),
+            'window': st.sampled_from([None, None, None, 'start', 'end', 'both']),
         })
 
     def run_case(self, recipe):
@@ -175,6 +176,15 @@ class C17(Prop):
         lab.reset_world()
         ms = recipe['metrics']
         args = {'fire_count': recipe['fire_count'], 'fire_period': '0', 'snapshot': 'no_collect'}
+        if recipe.get('window'):
+            # a fire window (epoch milliseconds, as the service sends it) that is open now: from a minute ago until an
+            # hour from now. Every hit of this case is inside it
+            now_ms = lab.CLOCK.now // 1_000_000
+            if recipe['window'] in ('start', 'both'):
+                args['window_start'] = str(now_ms - 60_000)
+            if recipe['window'] in ('end', 'both'):
+                args['window_end'] = str(now_ms + 3_600_000)
+            out.cls('inside_an_open_fire_window')
         if recipe['route'] == 'proto':
             out.cls('via_protobuf')
             trig = convert_response([TracePointConfig(ID='tp', path=PATH, line_number=LINE, args=args,
